@@ -38,16 +38,20 @@ func checkC12(c *Ctx) {
 	oA, _ := c.constInt("os", "O_APPEND")
 	// ---- F9: old content is discarded on a non-append rewrite
 	if fn := c.Fn("F9.truncate", "efivarfs/fswrapper.(*FSWrapper).WriteEfivarsWithGuid"); fn != nil {
-		opens := c.fsCalls(fn, "OpenFile")
-		creates := c.fsCalls(fn, "Create")
-		removes := append(c.fsCalls(fn, "Remove"), c.fsCalls(fn, "Truncate")...)
+		// the open call wherever the writer's call cone makes it
+		dv := c.deepViewOf(fn, 3)
+		opens := dv.fsInvokes("OpenFile")
+		creates := dv.fsInvokes("Create")
+		removes := append(dv.fsInvokes("Remove"), dv.fsInvokes("Truncate")...)
 		switch {
 		case len(creates) > 0 || len(removes) > 0:
 			c.R.Okf("F9.truncate", name(fn), "OpenFile.flags", c.Pos(fn.Pos()), "old content is discarded before a non-append write (Create/Remove/Truncate)")
 		case len(opens) == 1:
-			cases, ok := c.flagCases(opens[0].Common().Args[1], 0)
+			open := opens[0].i.(ssa.CallInstruction)
+			flagV := dv.resolve(open.Common().Args[1], opens[0].fr)
+			cases, ok := c.flagCases(flagV.v, 0)
 			if !ok {
-				c.R.Undecf("F9.truncate", name(fn), "OpenFile.flags", c.IPos(opens[0]), "open flags must be a finite set of constants", "not constant")
+				c.R.Undecf("F9.truncate", name(fn), "OpenFile.flags", c.IPos(open), "open flags must be a finite set of constants", "not constant")
 			} else {
 				good := true
 				for _, fc := range cases {
@@ -55,7 +59,7 @@ func checkC12(c *Ctx) {
 						good = false
 					}
 				}
-				c.R.Check(good, "F9.truncate", name(fn), "OpenFile.flags", c.IPos(opens[0]),
+				c.R.Check(good, "F9.truncate", name(fn), "OpenFile.flags", c.IPos(open),
 					"a non-append write opens the variable file with O_TRUNC (MemMapFs keeps the old tail otherwise)",
 					"non-append flag set lacks O_TRUNC: a shorter value leaves the tail of the previous value behind")
 			}
@@ -150,16 +154,52 @@ func (c *Ctx) stringSetPredicate(fn *ssa.Function) (map[string]bool, bool) {
 		return nil, false
 	}
 	p := fn.Params[0]
-	if b, ok := p.Type().Underlying().(*types.Basic); !ok || b.Kind() != types.String {
+	isString := false
+	if b, ok := p.Type().Underlying().(*types.Basic); ok && b.Kind() == types.String {
+		isString = true
+	} else if ir.NamedTypeID(p.Type()) != M+"/efivar.Efivar" {
 		return nil, false
 	}
 	if b, ok := fn.Signature.Results().At(0).Type().Underlying().(*types.Basic); !ok || b.Kind() != types.Bool {
 		return nil, false
 	}
+	// the subject of the tests: the string parameter, or the Name of the variable parameter
+	subject := func(v ssa.Value) bool {
+		if isString {
+			return v == ssa.Value(p)
+		}
+		switch y := v.(type) {
+		case *ssa.Field:
+			return y.X == ssa.Value(p) && ir.FieldID(y) == M+"/efivar.Efivar.Name"
+		case *ssa.UnOp:
+			if fa, ok := y.X.(*ssa.FieldAddr); ok && y.Op == token.MUL && ir.FieldID(fa) == M+"/efivar.Efivar.Name" {
+				if a, ok := fa.X.(*ssa.Alloc); ok {
+					n := 0
+					fromP := false
+					for _, r := range *a.Referrers() {
+						if st, ok := r.(*ssa.Store); ok && st.Addr == ssa.Value(a) {
+							n++
+							fromP = st.Val == ssa.Value(p)
+						}
+					}
+					return n == 1 && fromP
+				}
+			}
+		}
+		return false
+	}
 	consts := map[string]bool{}
 	supported := true
 	instrsOf(fn, func(i ssa.Instruction) {
 		switch x := i.(type) {
+		case *ssa.Field, *ssa.FieldAddr, *ssa.Alloc, *ssa.Store:
+			if isString {
+				supported = false
+			}
+		case *ssa.UnOp:
+			if !subject(x) {
+				supported = false
+			}
 		case *ssa.BinOp:
 			k, isK := x.Y.(*ssa.Const)
 			v := x.X
@@ -167,7 +207,7 @@ func (c *Ctx) stringSetPredicate(fn *ssa.Function) (map[string]bool, bool) {
 				k, isK = x.X.(*ssa.Const)
 				v = x.Y
 			}
-			if (x.Op == token.EQL || x.Op == token.NEQ) && isK && v == ssa.Value(p) && k.Value != nil && k.Value.Kind() == constant.String {
+			if (x.Op == token.EQL || x.Op == token.NEQ) && isK && subject(v) && k.Value != nil && k.Value.Kind() == constant.String {
 				consts[constant.StringVal(k.Value)] = true
 				return
 			}
@@ -254,7 +294,34 @@ func (c *Ctx) stringSetPredicate(fn *ssa.Function) (map[string]bool, bool) {
 func (c *Ctx) ruleStrip(fn *ssa.Function, want map[string]bool) {
 	fname := name(fn)
 	dv := c.deepViewOf(fn, 3)
-	strips := dv.callsTo(M + "/efi/signature.EFIVariableAuthentication2.Unmarshal")
+	// the descriptor decode, as the method or as the reader function (outermost call in the view)
+	descDec := map[string]int{M + "/efi/signature.EFIVariableAuthentication2.Unmarshal": 1, M + "/efi/signature.ReadEFIVariableAuthencation2": 0}
+	payDec := map[string]int{M + "/efi/signature.SignatureDatabase.Unmarshal": 1, M + "/efi/signature.ReadSignatureDatabase": 0}
+	outermost := func(ids map[string]int) []dinstr {
+		var out []dinstr
+		for _, di := range dv.order {
+			call, ok := di.i.(*ssa.Call)
+			if !ok {
+				continue
+			}
+			if _, is := ids[ir.CallID(call)]; !is {
+				continue
+			}
+			inner := false
+			for f := di.fr; f != nil; f = f.parent {
+				if f.site != nil {
+					if _, is := ids[ir.CallID(f.site)]; is {
+						inner = true
+					}
+				}
+			}
+			if !inner {
+				out = append(out, di)
+			}
+		}
+		return out
+	}
+	strips := outermost(descDec)
 	if len(strips) != 1 {
 		c.R.Undecf("F10.strip", fname, "descriptor-decode", c.Pos(fn.Pos()), "the descriptor stripping step must be identifiable", fmt.Sprintf("%d EFIVariableAuthentication2.Unmarshal calls in the view of WriteVar", len(strips)))
 		return
@@ -301,9 +368,20 @@ func (c *Ctx) ruleStrip(fn *ssa.Function, want map[string]bool) {
 					continue
 				}
 				gates = append(gates, gate{ce.Edge, map[string]bool{constant.StringVal(k.Value): true}})
+			case *ssa.Lookup:
+				// membership in a package-level map[string]bool that only init fills
+				if x.CommaOk || !fromName(x.Index, fr) {
+					continue
+				}
+				if set, ok := c.globalStringSet(x.X); ok {
+					gates = append(gates, gate{ce.Edge, set})
+				}
 			case *ssa.Call:
 				callee := ir.Callee(x)
-				if callee == nil || !c.P.InLib(callee) || len(x.Call.Args) != 1 || !fromName(x.Call.Args[0], fr) {
+				if callee == nil || !c.P.InLib(callee) || len(x.Call.Args) != 1 {
+					continue
+				}
+				if whole := dv.resolve(x.Call.Args[0], fr); !(fromName(x.Call.Args[0], fr) || vP != nil && whole.fr == dv.root && whole.v == ssa.Value(vP)) {
 					continue
 				}
 				if set, ok := c.stringSetPredicate(callee); ok {
@@ -345,7 +423,7 @@ func (c *Ctx) ruleStrip(fn *ssa.Function, want map[string]bool) {
 	// the buffer that is decoded is a fresh local filled by Marshal of the caller's value
 	sf := sfr.fn
 	bufOK, bufDet := false, "the buffer handed to the descriptor decoder is not a local buffer filled by this call's Marshal"
-	bufObj := dv.objectOf(strip.Call.Args[1], sfr)
+	bufObj := dv.objectOf(strip.Call.Args[descDec[ir.CallID(strip)]], sfr)
 	if a, isA := bufObj.v.(*ssa.Alloc); isA && ir.NamedTypeID(a.Type()) == "bytes.Buffer" {
 		marshalBefore := false
 		for _, di := range dv.order {
@@ -370,10 +448,10 @@ func (c *Ctx) ruleStrip(fn *ssa.Function, want map[string]bool) {
 	c.R.Check(bufOK, "F10.strip", fname, "scratch-buffer", c.IPos(strip), "the value is marshalled into a fresh local buffer before the descriptor is decoded from it", bufDet)
 	// the payload decode reads the same buffer, behind the success edge of the descriptor decode
 	pOK, pDet := false, "no SignatureDatabase.Unmarshal of the remaining bytes found"
-	for _, di := range dv.callsTo(M + "/efi/signature.SignatureDatabase.Unmarshal") {
+	for _, di := range outermost(payDec) {
 		payload := di.i.(*ssa.Call)
 		e, kept := errValue(strip)
-		same := dv.objectOf(payload.Call.Args[1], di.fr).same(bufObj)
+		same := dv.objectOf(payload.Call.Args[payDec[ir.CallID(payload)]], di.fr).same(bufObj)
 		switch {
 		case !same:
 			pDet = "the payload is decoded from a different buffer than the descriptor"
@@ -384,4 +462,75 @@ func (c *Ctx) ruleStrip(fn *ssa.Function, want map[string]bool) {
 		}
 	}
 	c.R.Check(pOK, "F10.strip", fname, "payload-after-descriptor", c.IPos(strip), "the stored value is decoded from the bytes that follow the descriptor in the same buffer", pDet)
+}
+
+// globalStringSet: m is the load of a package-level map[string]bool that is
+// built once in the package initialiser and never updated by library code;
+// returns the keys mapped to true.
+func (c *Ctx) globalStringSet(m ssa.Value) (map[string]bool, bool) {
+	ld, ok := m.(*ssa.UnOp)
+	if !ok || ld.Op != token.MUL {
+		return nil, false
+	}
+	g, ok := ld.X.(*ssa.Global)
+	if !ok || g.Pkg == nil {
+		return nil, false
+	}
+	// no library function stores to the global or updates the map loaded from it
+	for _, fn := range c.P.LibFunctions() {
+		if fn.Pkg != g.Pkg || fn.Name() == "init" {
+			continue
+		}
+		bad := false
+		instrsOf(fn, func(i ssa.Instruction) {
+			switch x := i.(type) {
+			case *ssa.Store:
+				if x.Addr == ssa.Value(g) {
+					bad = true
+				}
+			case *ssa.MapUpdate:
+				if l, ok := x.Map.(*ssa.UnOp); ok && l.X == ssa.Value(g) {
+					bad = true
+				}
+			}
+		})
+		if bad {
+			return nil, false
+		}
+	}
+	init := g.Pkg.Func("init")
+	if init == nil {
+		return nil, false
+	}
+	var mk ssa.Value
+	n := 0
+	instrsOf(init, func(i ssa.Instruction) {
+		if st, ok := i.(*ssa.Store); ok && st.Addr == ssa.Value(g) {
+			mk, n = st.Val, n+1
+		}
+	})
+	if n != 1 {
+		return nil, false
+	}
+	if _, isMake := mk.(*ssa.MakeMap); !isMake {
+		return nil, false
+	}
+	out := map[string]bool{}
+	ok = true
+	instrsOf(init, func(i ssa.Instruction) {
+		mu, isMU := i.(*ssa.MapUpdate)
+		if !isMU || mu.Map != mk {
+			return
+		}
+		k, isK := mu.Key.(*ssa.Const)
+		v, isV := mu.Value.(*ssa.Const)
+		if !isK || !isV || k.Value == nil || k.Value.Kind() != constant.String || v.Value == nil || v.Value.Kind() != constant.Bool {
+			ok = false
+			return
+		}
+		if constant.BoolVal(v.Value) {
+			out[constant.StringVal(k.Value)] = true
+		}
+	})
+	return out, ok && len(out) > 0
 }
